@@ -17,8 +17,8 @@ claims = {
          "allowedCtx is the repository's parent/child table read as an uninterpreted relation (IsAllowedForDirectiveContext trusted to be a pure function of its arguments); ghost depth updates are ghost code at function exit; paste re-resolution (processDirective) not yet under contract.",
          "contract-based deductive verification: loop invariant over contract-local ancestor function, VCs from go/ssa discharged by z3/cvc5", "DESIGN.md 4.C06"),
  "C08": ("proof",
-         "Partial claim. Proved: the include-name validator rejects absolute names, backslashes and any '/'-delimited '.' or '..' component other than the whole name (lemma over SMT strings, cvc5); os.Stat is only ever called on Join(Dir(current file), validated name) (ghost typestate lastStat/ioCount); Stack.Push refuses a file already on the include stack and leaves the stack unchanged; Pop/Push keep the stack invariant. Not claimed: 'moving directives into an included file changes nothing' (two runs).",
-         "Assumed: strings.Contains/ContainsRune/filepath.Join/Dir/os.Stat/os.ReadFile contracts (deps.spec); filepath.Join(dir, '..') names a directory (file-system fact); the JSIGHT-in-included-file refusal in processKeyword is verified for safety only.",
+         "Partial claim. Proved: the include-name validator rejects absolute names, backslashes and any '/'-delimited '.' or '..' component other than the whole name (lemma over SMT strings, cvc5); os.Stat is only ever called on Join(Dir(current file), validated name) (ghost typestate lastStat/ioCount); Stack.Push refuses a file already on the include stack and leaves the stack unchanged; Pop/Push keep the stack invariant; a JSIGHT directive read while the include stack is not empty is rejected (processKeyword). Not claimed: 'moving directives into an included file changes nothing' (two runs).",
+         "Assumed: strings.Contains/ContainsRune/filepath.Join/Dir/os.Stat/os.ReadFile contracts (deps.spec); filepath.Join(dir, '..') names a directory (file-system fact); Enumeration.String is a trusted pure function (kwText).",
          "contract-based deductive verification + SMT string lemma (cvc5)", "DESIGN.md 4.C08"),
  "C18": ("proof",
          "A banned kind is refused where its keyword is read (setCurrentDirective: root file, included file, macro body whether pasted or not), with the error at that keyword, nothing changed and no file access (defect F28 repaired: the check used to run only when the catalog was built); every directive that is created is of a kind that is not banned; the same conditional contract at the four later consumers addDirective, processInclude (ghost I/O counter unchanged), addMacro, processPasteDirective; the option function gives the core its own set: old set plus exactly the listed kinds, in a map no other core or option can reach; the banned set is read nowhere else (readers scan).",
@@ -29,7 +29,7 @@ claims = {
          "Assumed: fmt.Sprintf %s semantics for the two String() methods (trusted contracts); MarshalJSON emits one member per element of order (loop shape read, byte-level JSON is encoding/json's). UTF-8/JSON well-formedness and compact == indented are not claimed.",
          "contract-based deductive verification + SMT string lemmas", "DESIGN.md 4.C09"),
  "C11": ("proof",
-         "Partial claim: local rejection contracts, each of the shape 'condition on the pre-state implies an error and every heap location unchanged': duplicate tag / server / macro / user enum / user type, second JSIGHT / INFO / Title / Version / Description-of-info, macro without name or without body, PASTE of an undefined macro; every successful PASTE collects the ENUM rules of the pasted macro again (ghost call counter), so an enum declared twice through PASTE reaches the duplicate check; the same HTTP method on the same path / the same JSON-RPC method twice (AddHTTPMethod, AddJsonRpcMethod), a second Body under one response (AddResponseBody, defect F18 repaired), a PASTE without Name inside a macro body (findPaste); the same URL path twice (addURL: registered path => error, accepted URL registers its path, table insert-only) and two paths that differ only in a parameter name (checkSimilarPaths against the prefix table).",
+         "Partial claim: local rejection contracts, each of the shape 'condition on the pre-state implies an error and every heap location unchanged': duplicate tag / server / macro / user enum / user type, second JSIGHT / INFO / Title / Version / Description-of-info, macro without name or without body, PASTE of an undefined macro; every successful PASTE collects the ENUM rules of the pasted macro again (ghost call counter), so an enum declared twice through PASTE reaches the duplicate check; the same HTTP method on the same path / the same JSON-RPC method twice (AddHTTPMethod, AddJsonRpcMethod), a second Body under one response (AddResponseBody, defect F18 repaired), a PASTE without Name inside a macro body (findPaste); the same URL path twice (addURL: registered path => error, accepted URL registers its path, table insert-only) and two paths that differ only in a parameter name (checkSimilarPaths against the prefix table); a second Query, request Headers or response Headers.",
          "The remaining adders of setters.go / build_catalog_directives.go (interactions, types, enums, paths) are not yet under contract; 'one injected fault always causes rejection' end-to-end is not claimed.",
          "contract-based deductive verification: conditional frame postconditions (unchanged())", "DESIGN.md 4.C11"),
  "C07": ("proof",
